@@ -8,6 +8,16 @@ TB = ("Trusted: go/ssa (source->SSA), the govc executor/contract evaluator, the 
       "externals and physical bounds are listed in the evidence file on every run.")
 
 CLAIMS = {
+ "C06": dict(
+   text="Deductive proof, for values of symbolic size (all field values, all list lengths, children of unknown dynamic type): every one of the 123 types that implement util.Message (openflow13, common, protocol, util) inherits the interface contract 'Len() == uint16(size(self))' and 'MarshalBinary() returns exactly size(self) bytes, err == nil' for well-formed values whose size fits 16 bits, where size() is a per-kind spec function (header + sum of children + specified padding). Containers are verified against their children's contract only (behavioural subtyping: each implementer's obligations include the interface clauses; a lookup of all implementers is mechanical), with loop invariants over sum() for every child list; every copy() in a make(Len())+copy encoder is proved not to truncate its source (enc/notrunc), so no child byte is dropped. 8/16-bit size arithmetic is bit-precise.",
+   note="What is NOT yet proved here: that each child's bytes sit unmodified at their offset (byte-level embedding) - sizes, non-truncation and frames are. DHCP and LLDP (Read/Write API, not util.Message) are outside this check. wf(x) (pad buffers not longer than their slot, counts consistent with lists, non-nil mandatory children) is assumed as precondition; constructors/builders establishing it are checked under C01/C02 where claimed. " + TB,
+   technique="contract-based deductive verification: interface contract inheritance, size spec functions, sum() loop invariants, no-truncation obligations at every copy; QF_AUFBV, z3/cvc5",
+   design="DESIGN.md section 4 C06"),
+ "C13": dict(
+   text="Deductive proof for all 123 encodable types: Len() and MarshalBinary() each (1) leave size(self) unchanged and preserve wf(self) (two-state postconditions inherited from the interface contract), and (2) satisfy a frame condition proved by the executor: no location reachable from the receiver is modified except the explicitly listed derived fields (header/element length stamps, IPv4.IHL normalisation, NXActionResubmit.TableID), each of which is proved to be set to a function of the unmodified state (e.g. Header.Length == uint16(size(self)), NAT length == pad8(range fields present)), so a second call starts from a state that differs from the first only in fields that already hold their fixpoint value. Containers rely on children only through these clauses, so repeated sizing/embedding by wrappers (vendor, bundle) is covered for any nesting depth.",
+   note="Byte-for-byte equality of two successive encodings is implied for kinds whose bytes are proved against a layout (C03, where claimed); here it rests on: sizes repeatable, state unchanged except fixpoint-valued derived fields. " + TB,
+   technique="contract-based deductive verification: two-state postconditions + frame (modifies) obligations from symbolic execution of go/ssa; QF_AUFBV, z3/cvc5",
+   design="DESIGN.md section 4 C13"),
  "C15": dict(
    text="Deductive proof on the real lookup function with a SYMBOLIC field name: the registry map is evaluated from the package initialiser's SSA, the map lookup forks into one path per registered key plus the not-found path, and 122 postconditions generated from an oracle table transcribed from OpenFlow 1.3.5 Table 12 / OVS meta-flow.h (class, field number, payload width; width doubled in the 8-bit length field and mask flag set when a mask is requested) are proved on every path; unknown names are proved to return an error and nil; results are proved fresh (independent values) and a lemma function proves that mutating one result does not change a second lookup. Header packing: pack and unpack are verified against the OXM header layout for all 2^32 words / all headers with a 7-bit field number, and two lemma functions prove they are exact inverses.",
    note="Case-insensitivity rests on the assumed contract of strings.ToUpper (uninterpreted function, evaluated concretely on literals). The oracle table was transcribed from the specifications from memory (no network). The race-freedom part is decided as absence of shared mutable state (see C14), not by exploring schedules. " + TB,
